@@ -65,3 +65,12 @@ Definition pystr_int (z : Z) : ostr := dec_of_Z z.
 (* a Counter read: 0 for a missing key *)
 Definition zcnt_get (c : list (Z * Z)) (k : Z) : Z :=
   match afind Z.eqb k c with Some v => v | None => 0%Z end.
+
+(* _save_config(file_name, directory, program_info): configparser is not modelled; the
+   oracle says what the directory holds afterwards, or None when it returns False *)
+Definition call_save_config (save_config : ostr -> ostr -> pinfo -> fsys -> option fsys)
+           (directory file_name : ostr) (pi : pinfo) (fs : fsys) : bool * fsys :=
+  match save_config directory file_name pi fs with
+  | Some fs' => (true, fs')
+  | None => (false, fs)
+  end.
